@@ -3,6 +3,7 @@ CONSTANT MaxNodes = 5
 CONSTANT MaxLeaves = 3
 CONSTANT MaxList = 2
 CONSTANT MaxSingles = 3
+CONSTANT AccReuse = FALSE
 CONSTANT SymLeaves = 2
 CONSTANT Design = "attr"
 CONSTANT Domains = {"labels"}
